@@ -23,6 +23,20 @@ def check_table(p, res, rname, fq, message, detectors=()):
     except sympath.Unsupported as e:
         res.undecided('%s: decision table' % fq, str(e))
         return 'undecided'
+    # a function whose result is only ever truth-tested may return None for False and vice versa
+    from .. import callgraph
+    sites = callgraph.get(p).callers_of(f)
+    truth_only = bool(sites)
+    for caller, call in sites:
+        par = p.parents(caller).get(call)
+        if not (isinstance(par, (ast.If, ast.While, ast.BoolOp, ast.IfExp)) or (isinstance(par, ast.UnaryOp) and isinstance(par.op, ast.Not))):
+            truth_only = False
+        if isinstance(par, ast.IfExp) and par.test is not call:
+            truth_only = False
+    if truth_only:
+        def fz(rows):
+            return [(l, [(c, o.replace('ret None', 'ret False') if (o.endswith('ret None') or 'ret None ||' in o) else o) for c, o in rs]) for l, rs in rows]
+        have, want = fz(have), fz(want)
     for d in detectors:
         hit = d(p, f)
         if hit is not None:
@@ -42,10 +56,19 @@ def check_table(p, res, rname, fq, message, detectors=()):
             res.undecided('%s [%s]: %s' % (fq, label, det), message)
             verdict = 'undecided' if verdict == 'ok' else verdict
         else:
+            import re as _re
             for wc, wo, hc, ho in det[:2]:
-                res.bad(F(rname, f, f.node, '%s [%s] when %s: %s' % (f.name, label, ' and '.join(('%s' if v else 'not (%s)') % k for k, v in sorted(hc.items())) or 'always', ho),
-                          message + '; reviewed behaviour for this case: ' + wo))
-            verdict = 'bad'
+                # effects through functions the reviewed behaviour does not mention (a new helper) cannot be compared
+                callees = lambda t: set(_re.findall(r'call ([\w.]+?)\(', t)) | set(_re.findall(r'(?<![\w.])([A-Za-z_][\w.]*)\(', t))
+                new_callees = {c for c in callees(ho) - callees(wo) if not c.startswith(('L', 'S', 'old', '__')) and c not in ('len', 'str', 'int', 'bool', 'max', 'min', 'isinstance')}
+                when = ' and '.join(('%s' if v else 'not (%s)') % k for k, v in sorted(hc.items())) or 'always'
+                if new_callees:
+                    res.undecided('%s [%s] when %s: %s' % (fq, label, when, ho[:300]), 'goes through %s, which the reviewed behaviour does not use: %s' % (sorted(new_callees), wo[:300]))
+                    verdict = 'undecided' if verdict == 'ok' else verdict
+                else:
+                    res.bad(F(rname, f, f.node, '%s [%s] when %s: %s' % (f.name, label, when, ho),
+                              message + '; reviewed behaviour for this case: ' + wo))
+                    verdict = 'bad'
     if verdict == 'ok':
         res.ok('%s: %d case(s) agree with the reviewed decision table' % (fq, n))
     return verdict
